@@ -7,6 +7,7 @@ import TwProofs.C04
 import TwProofs.Lemmas.TextVars
 import TwProofs.Lemmas.TextDot
 import TwProofs.Lemmas.TextIndex
+import TwProofs.Lemmas.TextIdxDot
 
 namespace Tw.C12
 open Tw
@@ -304,6 +305,55 @@ example : evaluateStringPure [] (b "{{ names[ 1 ] }}") [(b "names", .slice [.str
     (.slice [.str (b "Ann"), .str (b "Bob")]) (by simp) (by decide) (b "1") (by decide) (by decide)
     [32] [32] [32] [32] (by decide) (by decide) (by decide) (by decide) [.str (b "Ann"), .str (b "Bob")] (by rfl)
   have hs : idxSrc [32] (b "names") [32] (b "1") [32] [32] = b "{{ names[ 1 ] }}" := by decide
+  rw [hs] at this
+  exact this
+
+/-- **a field of an element of a root slice prints as its converted value, from the source bytes on**
+    (`{{ users[0].name }}`): for every data map with distinct keys, every entry `(k, g)` whose value
+    converts to an array, every decimal position `d` inside it whose element converts to an object
+    (a struct, a string-keyed map, a pointer to one) and every key `f` of that object — as written, or
+    with its first letter in upper case — the template `{{ k[d].f }}`, with any white space inside the
+    brackets and the braces, renders the printed converted value of that field. -/
+theorem element_field_prints (custom : List ((VType × Bytes) × Nat)) (data : List (Bytes × GoVal)) (env : Env) (hd : KeysDistinct data)
+    (h : envFromMap data = .ok env) (k : Bytes) (g : GoVal) (hm : (k, g) ∈ data) (hk : isName k) (d : Bytes) (hdg : isDigits d)
+    (hb : digitsToNat d < 2 ^ 63) (f : Bytes) (hf : isName f) (g1 g2 g3 g4 : Bytes) (hg1 : allWs g1) (hg2 : allWs g2) (hg3 : allWs g3)
+    (hg4 : allWs g4) (xs : List Val) (harr : nativeToObject g = some (.arr xs)) (hin : digitsToNat d < xs.length)
+    (kvs : List (Bytes × Val)) (hel : xs.getD (digitsToNat d) .nil = .obj kvs)
+    (v : Val) (hv : mapGet kvs f = some v ∨ (mapGet kvs f = none ∧ mapGet kvs (toUpper (f.take 1) ++ f.drop 1) = some v)) :
+    evaluateStringPure custom (idxDotSrc g1 k g3 d g4 f g2) data = .ok v.toStr := by
+  obtain ⟨v0, hv0, hget⟩ := data_is_visible data env hd h k g hm
+  have hv0' : v0 = .arr xs := by rw [harr] at hv0; cases hv0; rfl
+  subst hv0'
+  obtain ⟨prog, t2, t3, t4, t6, t7, hp, hs⟩ := parse_idxDot_source g1 k g3 d g4 f g2 hg1 hg2 hg3 hg4 hk hdg hf (by omega)
+  have hidx : arrIndex xs (Int64.ofNat (digitsToNat d)) = .obj kvs := by rw [arrIndex_in xs _ hin hb, hel]
+  have hfne : f.isEmpty = false := by
+    obtain ⟨⟨c, cv, hcv, _⟩, _, _⟩ := hf
+    rw [hcv]; rfl
+  have hobj : ∀ line, objIndex kvs f line = .ok v := by
+    intro line
+    unfold objIndex
+    rcases hv with hv | ⟨hn, hv⟩
+    · rw [hv]
+    · rw [hn]
+      simp only [hfne, Bool.false_eq_true, if_false, hv]
+  unfold evaluateStringPure envOrFail
+  rw [hp]
+  simp only [h, hs]
+  rw [show evalFuel = (evalFuel - 6) + 1 + 1 + 1 + 1 + 1 + 1 from by decide, evalProg_cons, evalStmt_succ]
+  simp only [stmtBody, calleesAt_expr]
+  simp only [evalExpr, hget, hidx, hobj, Res.bind_ok]
+  rw [evalProg_nil]
+  simp [resToOut]
+
+example : evaluateStringPure [] (b "{{ users[1].name }}")
+    [(b "users", .slice [.struct [(b "Name", true, .str (b "Ann"))], .struct [(b "Name", true, .str (b "Bob"))]])] = .ok (b "Bob") := by
+  have := element_field_prints [] [(b "users", .slice [.struct [(b "Name", true, .str (b "Ann"))], .struct [(b "Name", true, .str (b "Bob"))]])]
+    [[(b "users", .arr [.obj [(b "Name", .str (b "Ann"))], .obj [(b "Name", .str (b "Bob"))]])]] (by simp [KeysDistinct]) (by rfl) (b "users")
+    (.slice [.struct [(b "Name", true, .str (b "Ann"))], .struct [(b "Name", true, .str (b "Bob"))]]) (by simp) (by decide) (b "1") (by decide) (by decide)
+    (b "name") (by decide) [32] [32] [] [] (by decide) (by decide) (by decide) (by decide)
+    [.obj [(b "Name", .str (b "Ann"))], .obj [(b "Name", .str (b "Bob"))]] (by rfl) (by decide) [(b "Name", .str (b "Bob"))] (by rfl)
+    (.str (b "Bob")) (Or.inr ⟨by rfl, by rfl⟩)
+  have hs : idxDotSrc [32] (b "users") [] (b "1") [] (b "name") [32] = b "{{ users[1].name }}" := by decide
   rw [hs] at this
   exact this
 
